@@ -76,3 +76,29 @@ def complement(es, minValue=None, maxValue=None):
     head = [(minValue, es[0][0])] if minValue is not None and minValue < es[0][0] else []
     tail = [(es[-1][1], maxValue)] if maxValue is not None and es[-1][1] < maxValue else []
     return head + pair_gaps(es) + tail
+
+
+def invertIntervalList(inputList, minValue=None, maxValue=None):
+    """an interval of non-positive length is rejected; otherwise the complement within the bounds"""
+    if exists(inputList, lambda iv: iv[0] >= iv[1]):
+        raise errors.ArgumentError("")
+    return complement(inputList, minValue, maxValue)
+
+
+# ---- C17: the keep / delete partition of a recording
+
+
+def computeKeepDeleteIntervals(start, stop, keepIntervals=None, deleteIntervals=None):
+    """the given stretches labelled as given and their complement within [start, stop] labelled the other way, in
+    time order; both lists at once are rejected; neither list: everything is kept"""
+    if keepIntervals and deleteIntervals:
+        raise errors.ArgumentError("")
+    if not keepIntervals and not deleteIntervals:
+        return [(start, stop, "keep")]
+    if deleteIntervals:
+        dels = [(iv[0], iv[1]) for iv in deleteIntervals]
+        keeps = complement(dels, start, stop)
+    else:
+        keeps = [(iv[0], iv[1]) for iv in keepIntervals]
+        dels = complement(keeps, start, stop)
+    return sorted([(s, e, "keep") for s, e in keeps] + [(s, e, "delete") for s, e in dels])
